@@ -206,7 +206,7 @@ def gen_scenario(s: Choices, cls, cfg):
         step = s.weighted([(6, None), (1, 1), (1, 2), (1, -1), (1, 3)])
         sc["mask"] = ["slice", [start, stop, step]]
     elif mk == "positions":
-        style = s.weighted([(3, "sorted_unique"), (3, "unsorted"), (2, "repeated"), (2, "negative"), (1, "out_of_range"), (1, "empty")])
+        style = s.weighted([(3, "sorted_unique"), (3, "unsorted"), (2, "repeated"), (2, "negative"), (1, "out_of_range"), (1, "empty"), (2, "negative_ascending")])
         m = s.draw(n + 3)
         pos = []
         if n == 0 or style == "empty":
@@ -222,6 +222,10 @@ def gen_scenario(s: Choices, cls, cfg):
             pos.append(pos[0])
         elif style == "negative":
             pos = [s.draw(n) - (n if s.draw(2) else 0) for _ in range(m)]
+        elif style == "negative_ascending":
+            # ascending as numbers, not as rows: negative positions wrap around, so the rows they
+            # name may come after, or coincide with, the rows named by the non-negative ones
+            pos = sorted(set(s.draw(n) - (n if s.draw(2) else 0) for _ in range(m + 1)))
         elif style == "out_of_range":
             pos = [s.draw(n) for _ in range(m)]
             pos.insert(s.draw(len(pos) + 1), n + s.draw(3))
